@@ -156,6 +156,24 @@ func shapes() []Shape {
 		p[1].OffsetUs, p[2].OffsetUs, p[3].OffsetUs, p[4].OffsetUs = 1<<31, 1<<32+5, 1<<32+1<<31+9, 1<<33+7
 		return &ref.StreamSpec{Client: A, Server: B, CPort: 1009, SPort: 80, Start: start(k), Pkts: p}
 	}))
+	// the wrap of the 32-bit microsecond counter falls between two payload-less packets, the data packets on
+	// both sides are more than 2^32 us apart (a long idle connection held open by keep-alives)
+	sh = append(sh, mk("wrap between two payload-less packets", true, func(k int) *ref.StreamSpec {
+		p := simplePkts(k, "f1.pcap", C("request"), S(""), C(""), S("response"), C(""))
+		p[1].OffsetUs, p[2].OffsetUs, p[3].OffsetUs, p[4].OffsetUs = 3_000_000_000, 4_500_000_000, 5_000_000_000, 5_000_000_001
+		return &ref.StreamSpec{Client: A, Server: B, CPort: 1019, SPort: 80, Start: start(k), Pkts: p}
+	}))
+	sh = append(sh, mk("two wraps, each between payload-less packets", true, func(k int) *ref.StreamSpec {
+		p := simplePkts(k, "f1.pcap", C("a"), S(""), C(""), S("b"), C(""), S(""), C("c"))
+		p[1].OffsetUs, p[2].OffsetUs, p[3].OffsetUs = 3_000_000_000, 4_400_000_000, 4_400_000_001
+		p[4].OffsetUs, p[5].OffsetUs, p[6].OffsetUs = 7_000_000_000, 8_700_000_000, 8_700_000_500
+		return &ref.StreamSpec{Client: A, Server: B, CPort: 1020, SPort: 80, Start: start(k), Pkts: p}
+	}))
+	sh = append(sh, mk("wrap between a payload-less packet and the next data packet", true, func(k int) *ref.StreamSpec {
+		p := simplePkts(k, "f1.pcap", C("a"), S(""), S("b"), C("c"))
+		p[1].OffsetUs, p[2].OffsetUs, p[3].OffsetUs = 4_000_000_000, 4_400_000_000, 4_400_000_100
+		return &ref.StreamSpec{Client: A, Server: B, CPort: 1021, SPort: 80, Start: start(k), Pkts: p}
+	}))
 	sh = append(sh, mk("starts before every other stream", false, func(k int) *ref.StreamSpec {
 		return &ref.StreamSpec{Client: B, Server: A, CPort: 1010, SPort: 80, Start: base.Add(-time.Duration(10+k) * time.Second).Add(-250 * time.Millisecond), Pkts: simplePkts(k, "f0.pcap", C("early"), S("bird"))}
 	}))
